@@ -401,3 +401,47 @@ def hoisting_program(rng):
     if place < 0.9:
         return "function a() { function b() {\n" + body + "\nreturn 'r'; } return b(); }\nlog('o', a());\nlog('END');"
     return "log('o', (function () {\n" + body + "\nreturn 'r';\n})());\nlog('END');"
+
+
+# ---------- loops that are the FIRST code of their body (jump targets at and near bytecode offset 0) ----------------
+def first_statement_loops():
+    """(name, source): every loop kind as the very first statement of a function / arrow / program (only bare declarations before
+    it), driven by a parameter, with every exit kind from the loop body and from constructs nested in it."""
+    out = []
+    heads = {"while": "while (n-- > 0) { %s }", "for-notest-init": "for (; n-- > 0;) { %s }", "for-update": "for (; n > 0; n--) { %s }", "do-while": "do { %s } while (--n > 0);",
+             "for-in": "for (var k in o) { n--; %s }", "for-of": "for (var v of a) { n--; %s }", "while-true-break": "while (true) { if (n-- <= 0) break; %s }",
+             "labelled-while": "L0: while (n-- > 0) { %s }", "switch-first": "switch (n) { case 3: n--; %s case 2: out.push('c2'); break; default: out.push('d'); }"}
+    bodies = {"continue": "if (n % 2) continue; out.push(n);", "break": "if (n === 1) break; out.push(n);", "plain": "out.push(n);",
+              "continue-from-for-in": "for (var q in {p: 1, r: 2}) { if (n % 2) continue L0; out.push(n + q); }", "continue-from-switch": "switch (n % 2) { case 1: continue; default: out.push(n); }",
+              "break-from-nested": "for (var j = 0; j < 2; j++) { if (j) break; out.push(n + ':' + j); }", "continue-in-try": "try { if (n % 2) continue; out.push(n); } finally { out.push('f'); }",
+              "nested-while-first": "var m = 2; while (m-- > 0) { if (m) continue; out.push(n + '/' + m); }", "return": "if (n === 1) return out.join() + '|ret'; out.push(n);",
+              "continue-cond-expr": "n % 2 ? out.push('odd') : out.push('even'); if (n > 100) continue;"}
+    for hn, hd in heads.items():
+        for bn, bd in bodies.items():
+            if "continue" in bd and hn == "switch-first":
+                continue
+            if "L0" in bd and hn != "labelled-while":
+                continue
+            if "return" in bd:
+                wrappers = ["function f(n, o, a) { %s out.push('end'); return out.join(); } log(f(N, {x: 1, y: 2, z: 3}, [1, 2, 3, 4]));",
+                            "var f = (n, o, a) => { %s out.push('end'); return out.join(); }; log(f(N, {x: 1, y: 2, z: 3}, [1, 2, 3, 4]));"]
+            else:
+                wrappers = ["function f(n, o, a) { %s out.push('end'); return out.join(); } log(f(N, {x: 1, y: 2, z: 3}, [1, 2, 3, 4]));",
+                            "var f = (n, o, a) => { %s out.push('end'); return out.join(); }; log(f(N, {x: 1, y: 2, z: 3}, [1, 2, 3, 4]));",
+                            "function f(n, o, a) { var unused; %s out.push('end'); return out.join(); } log(f(N, {x: 1, y: 2, z: 3}, [1, 2, 3, 4]));",
+                            "var f = function (n, o, a) { %s out.push('end'); return out.join(); }; log(f(N, {x: 1, y: 2, z: 3}, [1, 2, 3, 4]));",
+                            "log(new Function('n', 'o', 'a', 'out', %r)(N, {x: 1, y: 2, z: 3}, [1, 2, 3, 4], out));"]
+            loop = hd.replace("%s", bd)
+            for wi, w in enumerate(wrappers):
+                for N in (3, 4):
+                    if "%r" in w:
+                        src = "var out = []; " + (w % (loop + " out.push('end'); return out.join();")).replace("N", str(N), 1)
+                    else:
+                        src = "var out = []; " + (w % loop).replace("N", str(N), 1)
+                    out.append((("first-loop", hn, bn, wi, N), src + "\nlog('END');"))
+            # the loop as the very first code of the PROGRAM (host-provided names only)
+            if "return" not in bd and hn != "while-true-break":
+                for N in (3, 4):
+                    prog = loop.replace("out.push(", "log(").replace("o)", "{x: 1, y: 2, z: 3})").replace(" a)", " [1, 2, 3, 4])")
+                    out.append((("first-loop-program", hn, bn, 0, N), "var n, k, v, q, j, m;\n" + ("n = %d; " % N if False else "") + prog.replace("n-- > 0", "(n = (n === undefined ? %d : n) - 1) >= 0" % N, 1) + "\nlog('END');"))
+    return out
